@@ -1,0 +1,50 @@
+//! Read-only state snapshot for the external verification harness.
+//!
+//! Only compiled with `--cfg coap_lite_verif`; nothing here mutates state
+//! (`LruCache::peek_iter` does not refresh timestamps).
+
+use alloc::string::String;
+use alloc::vec::Vec;
+
+use super::{BlockHandler, BlockValue};
+
+/// Copy of one cache entry as seen by `BlockHandler::verif_snapshot`.
+#[derive(Debug, Clone, PartialEq, Eq)]
+pub struct VerifBlockStateSnapshot<Endpoint> {
+    pub method_code: u8,
+    pub path: Vec<String>,
+    pub requester: Option<Endpoint>,
+    pub last_request_block2: Option<BlockValue>,
+    /// The cached response, encoded without a size limit (None if the
+    /// entry holds no response or it cannot be encoded).
+    pub cached_response: Option<Vec<u8>>,
+    pub cached_response_payload_len: Option<usize>,
+    pub cached_request_payload: Option<Vec<u8>>,
+}
+
+impl<Endpoint: Ord + Clone> BlockHandler<Endpoint> {
+    /// All unexpired cache entries, least recently used first.
+    pub fn verif_snapshot(&self) -> Vec<VerifBlockStateSnapshot<Endpoint>> {
+        let mut out: Vec<_> = self
+            .states
+            .peek_iter()
+            .map(|(key, state)| VerifBlockStateSnapshot {
+                method_code: key.request_type_ord,
+                path: key.path.clone(),
+                requester: key.requester.clone(),
+                last_request_block2: state.last_request_block2.clone(),
+                cached_response: state
+                    .cached_response
+                    .as_ref()
+                    .and_then(|p| p.to_bytes_unlimited().ok()),
+                cached_response_payload_len: state
+                    .cached_response
+                    .as_ref()
+                    .map(|p| p.payload.len()),
+                cached_request_payload: state.cached_request_payload.clone(),
+            })
+            .collect();
+        out.reverse();
+        out
+    }
+}
